@@ -315,11 +315,23 @@ def start_cases_falsy():
                              if others != 'absent')
                 hooks[hn] = [out, flag]
                 for worker in ('obedient', 'stubborn'):
-                    for np_ in (1, 2):
+                    for np_ in (0, 1, 2):
                         for reqname in ('start', 'restart', 'daemon-start'):
                             yield {"family": "start", "hooks": hooks,
                                    "worker": worker, "np": np_,
                                    "request": reqname}
+
+
+def start_cases_no_process():
+    """numprocesses = 0: before_start and after_start still gate the start."""
+    for hn in ('before_start', 'after_start'):
+        for out in ('true', 'false', 'raise', 'none'):
+            for flag in (False, True):
+                hooks = {hn: [out, flag]}
+                for reqname in ('start', 'restart', 'daemon-start'):
+                    yield {"family": "start", "hooks": hooks,
+                           "worker": 'obedient', "np": 0,
+                           "request": reqname}
 
 
 def start_cases_late_veto():
@@ -372,7 +384,7 @@ def signal_cases():
 
 def _all_cases(tier):
     return list(start_cases()) + list(start_cases_falsy()) + \
-        list(start_cases_late_veto()) + \
+        list(start_cases_late_veto()) + list(start_cases_no_process()) + \
         list(stop_cases()) + list(signal_cases())
 
 
@@ -386,7 +398,7 @@ def _strategy():
         "hooks": st.fixed_dictionaries(dict((hn, spec)
                                             for hn in HOOK_NAMES)),
         "worker": st.sampled_from(['obedient', 'stubborn']),
-        "np": st.integers(1, 2),
+        "np": st.integers(0, 2),
         "request": st.sampled_from(['start', 'restart', 'daemon-start',
                                     'stop', 'rm', 'signal', 'kill']),
         "signum": st.sampled_from(sorted(SIGS))})
